@@ -8,8 +8,9 @@ use crate::runner::Tier;
 pub fn main(args: &[String]) -> i32 {
     match args.first().map(|s| s.as_str()) {
         Some("iso") => iso_selftest(args.get(1).and_then(|s| s.parse().ok()).unwrap_or(20_000)),
+        Some("probes") => probes_selftest(args.get(1).map(|s| s.as_str()).unwrap_or(""), args.get(2).map(|s| s.as_str()).unwrap_or("")),
         _ => {
-            eprintln!("usage: ohsim selftest iso [n]");
+            eprintln!("usage: ohsim selftest iso [n] | probes <ID> <evidence part file>");
             2
         }
     }
@@ -87,6 +88,38 @@ fn iso_selftest(n: u64) -> i32 {
         }
     }
     println!("iso selftest: {} cases, yes(renumbered)={} no(perturbed)={} undecided={} disagreements={}", n, yes, no, und, bad);
+    if bad > 0 {
+        2
+    } else {
+        0
+    }
+}
+
+/// every reach probe a check declares as required must have fired in the given evidence part
+fn probes_selftest(id: &str, part: &str) -> i32 {
+    let req = match crate::required_probes(id) {
+        Some(r) => r,
+        None => {
+            eprintln!("selftest probes: unknown property {}", id);
+            return 2;
+        }
+    };
+    let v: serde_json::Value = match std::fs::read_to_string(part).ok().and_then(|s| serde_json::from_str(&s).ok()) {
+        Some(v) => v,
+        None => {
+            eprintln!("selftest probes: cannot read {}", part);
+            return 2;
+        }
+    };
+    let mut bad = 0;
+    for p in &req {
+        let n = v["probes"][*p].as_u64().unwrap_or(0);
+        if n == 0 {
+            eprintln!("selftest probes: {} probe '{}' is stuck at zero in {}", id, p, part);
+            bad += 1;
+        }
+    }
+    println!("selftest probes: {} {} required probes, {} stuck at zero", id, req.len(), bad);
     if bad > 0 {
         2
     } else {
